@@ -12,6 +12,8 @@ import (
 	"time"
 
 	"github.com/pingcap/kvproto/pkg/pdpb"
+	"github.com/tikv/pd/pkg/grpcutil"
+	"google.golang.org/grpc"
 	"github.com/tikv/pd/pkg/typeutil"
 	"github.com/tikv/pd/server"
 	"github.com/tikv/pd/server/config"
@@ -217,6 +219,30 @@ func prepareCluster() *prepared {
 	}
 	p.L, p.T = L, T
 	return p
+}
+
+// rpcGate holds back the next SyncMaxTS request the PD leader sends (a slow RPC: the code allows 3 s per request).
+type rpcGate struct {
+	mu      sync.Mutex
+	armed   int
+	parked  chan struct{}
+	release chan struct{}
+}
+
+func (g *rpcGate) intercept(ctx context.Context, method string, req, reply interface{}, cc *grpc.ClientConn, invoker grpc.UnaryInvoker, opts ...grpc.CallOption) error {
+	if strings.HasSuffix(method, "/SyncMaxTS") {
+		g.mu.Lock()
+		a := g.armed > 0
+		if a {
+			g.armed--
+		}
+		g.mu.Unlock()
+		if a {
+			g.parked <- struct{}{}
+			<-g.release
+		}
+	}
+	return invoker(ctx, method, req, reply, cc, opts...)
 }
 
 // joinTrace is the history of the cluster phase in the vocabulary of model/C05_Join.v (members: 0 = the new PD leader,
@@ -432,5 +458,143 @@ func clusterPhase(R *res.Result, p *prepared) {
 			}
 		}
 	}
+	joinDuringGlobal(R, c, T, jt, global, localAns, suffix)
 	joinCase = jt
 }
+
+// joinDuringGlobal: dc-6 joins, on a member the request does not talk to, while a Global request is in flight (slow
+// SyncMaxTS requests: the code allows 3 s for each). The Global request synchronises the dc-locations that existed when
+// it began; a Local timestamp of dc-6 requested after the Global answer was returned must still be greater than it.
+func joinDuringGlobal(R *res.Result, c *cluster, T *node, jt *joinTrace, global func() (pdpb.Timestamp, bool),
+	localAns func(string, pdpb.Timestamp, int), suffix map[string]int32) {
+	skip := func(why string) { R.Notes = append(R.Notes, "join-during-global scenario incomplete: "+why) }
+	tam := T.s.GetTSOAllocatorManager()
+	// X: the member that is going to serve dc-6; it must serve nothing the request synchronises
+	var X, L *node
+	for _, x := range c.nodes {
+		if jt.idx[x] == 2 {
+			X = x
+		}
+		if jt.idx[x] == 1 {
+			L = x
+		}
+	}
+	if X == nil || L == nil {
+		skip("members")
+		return
+	}
+	for _, dc := range []string{"dc-1", "dc-2", "dc-3", "dc-4", "dc-5"} {
+		if !serves(X, dc) {
+			continue
+		}
+		if err := X.s.GetTSOAllocatorManager().TransferAllocatorForDCLocation(dc, L.s.GetMember().ID()); err != nil {
+			skip("transfer " + dc + ": " + err.Error())
+			return
+		}
+		if !waitFor(75*time.Second, func() bool { return serves(L, dc) && !serves(X, dc) }) {
+			skip("allocator of " + dc + " did not move within 75 s")
+			return
+		}
+		c.holder[dc] = L
+		jt.labels = append(jt.labels, fmt.Sprintf("JStop %d", dcnumOf(dc)), fmt.Sprintf("JStart %d 1 1003", dcnumOf(dc)))
+	}
+	gate := &rpcGate{parked: make(chan struct{}, 2), release: make(chan struct{}, 2)}
+	for _, x := range c.nodes {
+		addr := x.cfg.AdvertiseClientUrls
+		ctx, cancel := context.WithTimeout(context.Background(), 3*time.Second)
+		conn, err := grpcutil.GetClientConn(ctx, addr, nil, grpc.WithUnaryInterceptor(gate.intercept))
+		cancel()
+		if err != nil {
+			skip("dial " + addr + ": " + err.Error())
+			return
+		}
+		tam.VerifSetGRPCConn(addr, conn)
+	}
+	if _, ok := global(); !ok { // the new connections work
+		skip("no Global timestamp through the gated connections")
+		return
+	}
+	// `transfer allocator dc-6 -> X` ahead of time: only X may campaign for dc-6
+	if _, err := T.s.GetClient().Put(context.Background(), tam.VerifNextLeaderKey("dc-6"), fmt.Sprint(X.s.GetMember().ID())); err != nil {
+		skip(err.Error())
+		return
+	}
+	gate.mu.Lock()
+	gate.armed = 2 // the first request of each of the two SyncMaxTS passes
+	gate.mu.Unlock()
+	type gres struct {
+		ts  pdpb.Timestamp
+		err error
+	}
+	done := make(chan gres, 1)
+	go func() {
+		g, err := tam.HandleTSORequest(tso.GlobalDCLocation, 10)
+		done <- gres{g, err}
+	}()
+	select {
+	case <-gate.parked:
+	case <-time.After(5 * time.Second):
+		skip("the Global request did not reach its SyncMaxTS request")
+		return
+	}
+	if _, err := T.s.GetClient().Put(context.Background(), T.s.GetMember().GetDCLocationPath(424246), "dc-6"); err != nil {
+		gate.release <- struct{}{}
+		gate.release <- struct{}{}
+		skip(err.Error())
+		return
+	}
+	tam.ClusterDCLocationChecker()
+	X.s.GetTSOAllocatorManager().ClusterDCLocationChecker() // X's periodic checker fires too
+	servedBefore := waitFor(2300*time.Millisecond, func() bool { return serves(X, "dc-6") })
+	gate.release <- struct{}{}
+	if !servedBefore {
+		select {
+		case <-gate.parked: // the second pass
+			servedBefore = waitFor(2300*time.Millisecond, func() bool { return serves(X, "dc-6") })
+		case <-time.After(2 * time.Second):
+		}
+	}
+	gate.mu.Lock()
+	gate.armed = 0
+	gate.mu.Unlock()
+	gate.release <- struct{}{}
+	r := <-done
+	if !waitFor(75*time.Second, func() bool { return serves(X, "dc-6") }) {
+		skip("dc-6 is not served after 75 s")
+		return
+	}
+	c.holder["dc-6"] = X
+	suffix["dc-6"] = tam.GetClusterDCLocations()["dc-6"].Suffix
+	R.Count("cluster:join-during-global")
+	if servedBefore {
+		R.Count("cluster:join-during-global:dc-served-before-the-global-answer")
+	}
+	if r.err != nil {
+		R.Count("cluster:join-during-global:global-refused")
+		return
+	}
+	// model labels in the order things happened
+	jt.labels = append(jt.labels, "JGBegin 10", "JCheckLeader 6", "JCheckFollower 2")
+	if servedBefore {
+		jt.labels = append(jt.labels, "JStart 6 2 1003")
+		jt.answer("None", T, 0, r.ts, "JGEnd")
+	} else {
+		jt.answer("None", T, 0, r.ts, "JGEnd")
+		jt.labels = append(jt.labels, "JStart 6 2 1003")
+	}
+	l, err := X.s.GetTSOAllocatorManager().HandleTSORequest("dc-6", 1)
+	if err != nil {
+		skip("local request on dc-6: " + err.Error())
+		return
+	}
+	localAns("dc-6", l, 1)
+	R.Notes = append(R.Notes, fmt.Sprintf("join-during-global: global answer (%d,%d,w%d), first local of dc-6 (%d,%d,w%d), served before the answer: %v", r.ts.Physical, r.ts.Logical, r.ts.SuffixBits, l.Physical, l.Logical, l.SuffixBits, servedBefore))
+	if !tsLess(r.ts, l) {
+		R.Violate("C05:local-of-dc-joined-during-global-request-not-above-it",
+			fmt.Sprintf("dc-6 joined and began to serve (on a member the request does not talk to) while a Global request was in flight (slow SyncMaxTS requests); the Global answer (%d,%d) was returned, and a Local timestamp of dc-6 requested afterwards is (%d,%d): not greater", r.ts.Physical, r.ts.Logical, l.Physical, l.Logical),
+			map[string]interface{}{"global": []int64{r.ts.Physical, r.ts.Logical}, "local": []int64{l.Physical, l.Logical},
+				"history": "all memories one hour ahead of the clock (reset-ts); Global request for 10 timestamps held at its SyncMaxTS requests; dc-6 joins, its allocator (on a member that serves no other dc) starts from the maximum of the memories; the Global request continues and answers above that; Local request on dc-6"})
+	}
+}
+
+func dcnumOf(dc string) int { var n int; fmt.Sscanf(dc, "dc-%d", &n); return n }
